@@ -81,6 +81,12 @@ def run(tier):
             check.violation({"class": "crash-under-concurrency", "site": r.get("site")}, {"observed": r})
         elif r.get("bad"):
             check.violation({"class": "concurrent-result-differs", "what": r["bad"][0]["what"]}, {"observed": r["bad"]})
+    # (2b) sequential histories: parsing the same input again, after other inputs, gives the identical tree, and the first tree is untouched
+    wps = core.WorkerPool(core.build_worker())
+    for t, r in progs.retain_results(check, wps, inputs.programs(check, tier), core.seed() + 11, 150 if tier == "quick" else 2000):
+        if r.get("changed"):
+            check.violation({"class": "result-depends-on-earlier-parses", "what": r.get("changed"), "part": r.get("part")},
+                            {"task": {"src": t["src"], "ver": t["ver"], "others": len(t["others"])}, "observed": r})
     # (3) the pipelines in their real packaging: cmd/php-parser (GOMAXPROCS parser workers, one printer goroutine, channels), built
     # with the race detector; every file's dump, errors and printed text must be those of the library run on that file alone
     files = [p["src"] for p in pool_in if p["ver"] == "7.4"]
